@@ -97,6 +97,14 @@ type Lemma struct {
 
 func (l *Lemma) Key() string { return l.Pkg + ".lemma:" + l.Name }
 
+type StructuralClause struct {
+	Pkg   string
+	Text  string
+	Props []string
+	File  string
+	Line  int
+}
+
 type ContractSet struct {
 	byKey  map[string]*FuncContract
 	funcs  []*FuncContract
@@ -105,12 +113,13 @@ type ContractSet struct {
 	lemmas []*Lemma
 	files  []string
 	binds  map[string]string // external function (ssa name) -> pkg.specfunc
+	structurals []StructuralClause
 	errors []string
 	assumeCount int
 }
 
 var clauseKeywords = map[string]bool{"ghost": true, "after": true, "requires": true, "ensures": true, "loop": true, "safe": true, "pure": true, "trusted": true, "at": true, "var": true, "let": true, "assert": true, "results": true}
-var topKeywords = map[string]bool{"func": true, "spec": true, "axiom": true, "lemma": true, "bind": true}
+var topKeywords = map[string]bool{"func": true, "spec": true, "axiom": true, "lemma": true, "bind": true, "structural": true}
 
 var propTagRe = regexp.MustCompile(`\[(C[0-9]+(?:\s*,\s*C[0-9]+)*)\]`)
 
@@ -238,6 +247,10 @@ func (cs *ContractSet) parseFile(repo, path string) error {
 			}
 			sf.File, sf.Line = rel, l.line
 			cs.specs[pkg+"."+sf.Name] = sf
+		case "structural":
+			curF, curL = nil, nil
+			props, r := parseProps(rest)
+			cs.structurals = append(cs.structurals, StructuralClause{Pkg: pkg, Text: strings.TrimSpace(r), Props: props, File: rel, Line: l.line})
 		case "bind":
 			curF, curL = nil, nil
 			i := strings.LastIndex(rest, "=")
